@@ -12,16 +12,16 @@ CLAIMED = {
    note="Release-profile arithmetic. Step-fuel, depth and allocator budgets end runaway runs; such endings are C03 verdicts, not C01 ones. Worker aborts (SIGSEGV/SIGABRT) are attributed to the in-flight run and confirmed by solo replay.",
    tech="deterministic simulation: seeded workload + line-fault injection, per-byte crash oracle"),
  "C02": dict(cat="fault_enumeration", ref="DESIGN.md §3 C02",
-   text="Base files are produced by the engine's own writers (18 extensions, PSF/raw fonts, TDF bundles, 5 palette formats, clipboard payloads) from seeded documents; a simulated disk applies 12 stored-byte fault kinds (short, torn sector, lost sector, stale tail, bit rot, overwrite, misdirected and duplicated sector, misnamed file, SAUCE-tail-only, COMNT cut, header extreme) singly and in combinations of 2-3, plus real-file-system legs (missing, directory, empty, no extension). Every entry point named by the property is called on the damaged bytes; oracle: returns Ok/Err/None, no panic, worker alive; the loader's drain loop runs on virtual sleeps with decode threads gated. Two sweeps are complete by run index: every prefix (truncation) of 2 (quick) / 6 (thorough) base files for each of the 22 readers, and the whole single-fault space (every truncation, every position x {bit 0, bit 7, 0x00, 0xFF, 0x1A}, every aligned 16-byte run zeroed) of 2 / 64 base files of up to 5 200 bytes. IcyDraw files are additionally damaged inside their framing (zTXt records rewritten and re-framed with correct base64/zlib/CRC). Multi-fault combinations are sampled.",
+   text="Base files are produced by the engine's own writers (18 extensions, PSF/raw fonts incl. tables of up to 2^17 glyphs, TDF bundles, 5 palette formats plus the writer-less ASE reader, clipboard payloads, UTF-8 text files with a byte order mark) from seeded documents; a simulated disk applies 16 stored-byte fault kinds (short, torn sector, lost sector, stale tail, bit rot, overwrite, misdirected and duplicated sector, misnamed file, SAUCE-tail-only, COMNT cut, header extreme, decimal number extreme, SAUCE numeric field extreme, SAUCE text bytes, TheDraw font name bytes) singly and in combinations of 2-3, plus real-file-system legs (missing, directory, empty, no extension). Every entry point named by the property is called on the damaged bytes; oracle: returns Ok/Err/None, no panic, worker alive; the loader's drain loop runs on virtual sleeps with decode threads gated. Two sweeps are complete by run index: every prefix (truncation) of 2 (quick) / 6 (thorough) base files for each of the 22 readers, and the whole single-fault space (every truncation, every position x {bit 0, bit 7, 0x00, 0xFF, 0x1A}, every aligned 16-byte run zeroed) of 2 / 64 base files of up to 5 200 bytes. IcyDraw files are additionally damaged inside their framing (zTXt records rewritten and re-framed with correct base64/zlib/CRC). Multi-fault combinations are sampled.",
    note="Nothing is asserted about what a damaged file loads as. Budget overruns are C03 verdicts. Complete only per enumerated base file; across base files and for multi-fault combinations it is sampling.",
    tech="deterministic simulation: storage fault injection on writer-produced files, crash oracle"),
  "C03": dict(cat="exploration", ref="DESIGN.md §3 C03",
-   text="Simulated CPU (step fuel ticked at six central engine sites), simulated memory (counting global allocator: 256 MiB live, 64 MiB single request), nesting depth 64 and a 10 s watchdog backstop. Workload: one control function per run after a short set-up, every CSI final x intermediates x 0-6 parameters from {empty,0,1,size,2^16,10^6,2^31-1}, self/mutually recursive and multiplicative macros, hex-macro repeats, sixel raster/repeat/colour headers, font DCS payloads with PSF header extremes, Avatar repeats; every fourth run is a damaged file through the loaders under a 2e8-tick cap. Oracle: total ticks <= 16(n+1)W(H+n+1) + 4WH^2 + 5e5 (constants recorded; worst legitimate case measured at 15 % of the bound).",
+   text="Simulated CPU (step fuel ticked at six central engine sites), simulated memory (counting global allocator: 256 MiB live, 64 MiB single request), nesting depth 64 and a 10 s watchdog backstop. Workload: one control function per run after a short set-up (in a third of the CSI runs the same function 2-16 times over, so that clamps reading state the function itself changes compound), every CSI final x intermediates x 0-6 parameters from {empty,0,1,size,2^16,10^6,2^31-1}, self/mutually recursive and multiplicative macros, hex-macro repeats, sixel raster/repeat/colour headers, font DCS payloads with PSF header extremes, the rectangle functions with each edge independently on or far off the screen, Avatar repeats; every fourth run is a damaged file through the loaders under a 2e8-tick cap. Oracle: total ticks <= 16(n+1)W(H+n+1) + 4WH^2 + 5e5 (constants recorded; worst legitimate case measured at 15 % of the bound).",
    note="Ticks are placed by hand; a loop touching no tick site is caught only by the allocator budget or the wall-clock watchdog (confirmed by solo replay, counted separately). Nothing is claimed about real running time.",
    tech="deterministic simulation: resource (CPU/memory/stack) fault budgets as oracle"),
  "C08": dict(cat="exploration", ref="DESIGN.md §3 C08",
-   text="Seeded edit histories over 63 public editing operations (plus current-layer/caret/selection steering) on 1-3 layer documents, with a second actor interleaving undo j / redo i<=j / undo-then-edit; the first 567 runs force every operation kind first, middle and last in histories of length 1-3. Reference model: observational snapshots (size, modes, palette, fonts, SAUCE, per-layer size/offset/properties/cells) recorded at every operation boundary; every undo/redo step that lands on a boundary must reproduce it, undo/redo must return Ok and not panic, an edit after undo must clear the redo history, an edit that adds no undo record must not change the document. 16 genuine defects are pinned as known findings (class = step kind + description of the operation being undone + differing field).",
-   note="An operation that returns Err or panics ends the history (counted, not a violation). A new defect whose class equals a pinned one is not reported separately.",
+   text="Seeded edit histories over 63 public editing operations (plus current-layer/caret/selection steering) on 1-3 layer documents, with a second actor interleaving undo j / redo i<=j / undo-then-edit; the first 567 runs force every operation kind first, middle and last in histories of length 1-3. Reference model: observational snapshots (size, modes, palette, fonts, SAUCE, per-layer size/offset/properties/cells) recorded at every operation boundary; every undo/redo step that lands on a boundary must reproduce it, undo/redo must return Ok and not panic, an edit after undo must clear the redo history, an edit that adds no undo record must not change the document. 13 genuine defects are pinned as known findings (class = step kind + description of the operation being undone + differing field); a pinned class only covers histories containing one of the quarantined triggers, which the generator does not emit, so in this command it suppresses nothing.",
+   note="An operation that returns Err or panics ends the history (counted, not a violation). Regressions inside a quarantined operation (set_layer_size, clear_layer, scroll_area_*, center, stamp_layer_down, alpha-locked layers, SAUCE of another size) are not searched for.",
    tech="deterministic simulation: history search with undo/redo schedule against a snapshot reference model"),
  "C09": dict(cat="exploration", ref="DESIGN.md §3 C09",
    text="Same sessions and line faults as C01 with a host biased to cursor motion, tabs, margins, origin mode, save/restore, resets and scrolling with a scrollback present. After every delivered byte (until a ResizeTerminal action is observed): 0 <= column < terminal width and first visible row <= row < first visible row + height; for Viewdata and Mode 7 the buffer, terminal and layer geometry stay 40x24.",
@@ -32,15 +32,15 @@ CLAIMED = {
    note="An invalid char is observed numerically after the fact (release profile). Scans after a control function cover the visible rows; periodic scans and the end-of-stream scan cover the whole scrollback. Stored macro bodies are read through a guarded read-only accessor.",
    tech="deterministic simulation: post-event scalar-value monitor under line, disk, clipboard and in-framing faults"),
  "C14": dict(cat="exploration", ref="DESIGN.md §3 C14",
-   text="Seeded search over decode-completion orders and poll placements with the engine's real decode threads parked at a gate and released one at a time; the canonical schedule space for k<=3 images (33 561 schedules, <=2 polls per gap) is swept completely by run index, larger k sampled. Oracles: rectangularity and declared-raster-size on every decode, arrival-order/shadowing reference model after every poll, no delivery of unfinished decodes, exactly-once, poll never blocks (5 s watchdog, confirmed by solo replay), bounded liveness after all releases. One run in eight (beyond the sweep) loads the payloads as an ANSI file: the loader's drain loop runs on virtual sleeps under three release schedules and the resulting image layers must equal the arrival-order/shadowing model. Sampling, not proof.",
+   text="Seeded search over decode-completion orders and poll placements with the engine's real decode threads parked at a gate and released one at a time; the canonical schedule space (all orderings of arrivals and completions, <=2 polls per gap) is swept completely by run index for k<=3 images in the quick tier (33 561 schedules) and for k<=4 - the property's bound - in the thorough tier (2 100 276 schedules), larger k sampled; beyond the sweep a third of the sessions use a viewer's (non-terminal) buffer and a third carry erase-display commands between arrivals, releases and polls; raster attributes stand in front of, inside, after or on both sides of the pixel data. Oracles: rectangularity and declared-raster-size on every decode, arrival-order/shadowing reference model after every poll, no delivery of unfinished decodes, exactly-once, nothing that arrived before an erase display is queued or shown after it, poll never blocks (5 s watchdog, confirmed by solo replay), bounded liveness after all releases. One run in eight (beyond the sweep) loads the payloads as an ANSI file: the loader's drain loop runs on virtual sleeps under three release schedules and the resulting image layers must equal the arrival-order/shadowing model. Sampling, not proof.",
    note="Trusts: the gate hook (cfg icy_engine_verif) parks a decode before it reads its payload; the reference image of an arrival is computed by calling the real Sixel::parse_from synchronously; font cell is 8x16 in these runs. 'Never blocks' is a 5 s wall-clock judgement on a microsecond call.",
    tech="deterministic simulation: gated real threads, seeded schedule search, reference-model oracle"),
- "C16": dict(cat="exploration", ref="DESIGN.md §3 C16 (first sentence only)",
-   text="Palette-index stability under terminal streams: in seeded ANSI sessions biased to colour selection (SGR 38/48;5 and ;2, CSI..t 24-bit colours, resets, line faults) the RGB every already-allocated palette index resolves to is compared after every byte; plus direct seeded histories of insert/set/get/resize/push against a vector model (insert returns an index resolving to that RGB, existing colour returns its first index, old indices keep their value).",
-   note="Not decided: palette file export/import and the 6-bit VGA encoding (pure functions). The session monitor disarms once a ']' byte has been delivered (OSC 4 may legitimately redefine an index).",
-   tech="deterministic simulation: per-byte palette monitor + history search against a vector model"),
+ "C16": dict(cat="exploration", ref="DESIGN.md §3 C16 (as built)",
+   text="Palette-index stability under terminal streams: in seeded ANSI sessions biased to colour selection (SGR 38/48;5 and ;2 incl. repeated requests for colours from a small pool, CSI..t 24-bit colours, OSC 4 redefinitions, resets, line faults) the RGB every already-allocated palette index resolves to is compared after every byte (bytes inside an OSC string re-baseline it), and a lone true-colour request that started in ground state must leave the cursor carrying an index that resolves to exactly that colour. Direct seeded histories of insert / set / push / resize / lookup on palettes of 0-306 colours against a vector model. Riding along in those histories, as plain seeded generation without any schedule or fault: export -> import of the current palette over the five text formats x 16 metadata variants must give the same RGB sequence, and a sweep of all 64^3 six-bit colours must survive expand -> reduce -> expand.",
+   note="The export/import and six-bit clauses are pure functions of one palette: they are checked, but by seeded generation, not by simulation. Non-ANSI emulations have no state hook: there the session monitor disarms once a ']' byte has been delivered. Colour names are not required to survive export/import.",
+   tech="deterministic simulation: per-byte palette monitor under line faults + history search against a vector model (export/import clause: seeded generation only)"),
  "C20": dict(cat="exploration", ref="DESIGN.md §3 C20",
-   text="RIPscrip and IGS sessions: the first 7 135 runs take every command with every parameter-list length over digits {0,1,Z} (IGS: 0..12 numbers from {0,1,99999}); later runs are seeded multi-command streams with line faults, an icon cache directory on a scratch file system (missing/empty/truncated/bit-flipped/oversized icons, a directory, mtimes before 1970 and in the future), virtual clock jumps, and a UI actor calling get_next_action and get_picture_data. Oracle: Ok/Err per byte, no panic, worker alive; each event within 256 x canvas ticks (stall); a loop never needs more get_next_action calls than |to-from|/max(step,1)+2 (fault-free runs); every exposed canvas has exactly width x height x 4 bytes.",
+   text="RIPscrip and IGS sessions: the first 15 785 runs are systematic by run index - every command with every parameter-list length over digits {0,1,Z} (IGS: 0..12 numbers from {0,1,99999}), then two selector sweeps: every IGS state-setting command x arity 1-6 x (first, second) number in 0..8 x 0..12 and every RIP state-setting command x its first two fields in 0..16, each followed by one of every drawing command incl. degenerate polygons; later runs are seeded multi-command streams with line faults, an icon cache directory on a scratch file system (missing/empty/truncated/bit-flipped/oversized icons, a directory, mtimes before 1970 and in the future), virtual clock jumps, and a UI actor calling get_next_action and get_picture_data. Oracle: Ok/Err per byte, no panic, worker alive; each event within 256 x canvas ticks (stall); a loop never needs more get_next_action calls than |to-from|/max(step,1)+2 (fault-free runs); every exposed canvas has exactly width x height x 4 bytes.",
    note="Sleeping is not a stall (IGS delays run on the virtual clock). Cache-file lookups without extension are kept unambiguous so replay does not depend on read_dir order.",
    tech="deterministic simulation: command-stream search with file-system, clock and line faults; crash, step-budget and canvas oracles"),
 }
